@@ -114,9 +114,19 @@ def parts_of(v) -> List[object]:
 
 
 # ---------------------------------------------------------------------------------------------- copy propagation
+def _fresh_single_bindings(fnode):
+    """single_bindings() of rob-C1 caches its result ON the function node; a deep copy that was edited afterwards
+    (helpers inlined) would see the stale table of the original: always recompute."""
+    try:
+        del fnode._rob_single_bindings
+    except AttributeError:
+        pass
+    return single_bindings(fnode)
+
+
 def local_defs(fnode) -> Dict[str, ast.expr]:
     """single-assignment locals of fnode (not parameters / loop targets / augmented)."""
-    return dict(single_bindings(fnode))
+    return dict(_fresh_single_bindings(fnode))
 
 
 def expand(fnode, expr: ast.AST, keep=(), depth: int = 4) -> ast.AST:
@@ -142,6 +152,20 @@ def ternary_atoms(pm, node, stop) -> List[Tuple[ast.expr, bool]]:
     return out
 
 
+def expand_bool(test: ast.expr, defs: Dict[str, ast.expr], depth: int = 4) -> ast.expr:
+    """a test in which single-assignment locals used AS boolean operands (`too_long = len(x) > n; if too_long:`) are
+    replaced by their definitions; operands of comparisons / calls are left alone."""
+    if depth <= 0:
+        return test
+    if isinstance(test, ast.Name) and test.id in defs:
+        return expand_bool(defs[test.id], defs, depth - 1)
+    if isinstance(test, ast.UnaryOp) and isinstance(test.op, ast.Not):
+        return ast.UnaryOp(op=ast.Not(), operand=expand_bool(test.operand, defs, depth))
+    if isinstance(test, ast.BoolOp):
+        return ast.BoolOp(op=test.op, values=[expand_bool(v, defs, depth) for v in test.values])
+    return test
+
+
 def dominating_atoms(g, stmt, fnode=None) -> List[Tuple[ast.expr, bool]]:
     """conjunctive atoms (expr, polarity) implied by the branch outcomes that dominate `stmt` in CFG `g`; the atoms of
     a test are split (`a and b` taken -> a, b; `a or b` refused -> not a, not b); single-assignment boolean locals
@@ -152,6 +176,282 @@ def dominating_atoms(g, stmt, fnode=None) -> List[Tuple[ast.expr, bool]]:
     out = []
     defs = local_defs(fnode) if fnode is not None else {}
     for test, pol in g.edge_guards(nodes[0]):
-        t = expand_expr(test, defs) if defs else test
-        out.extend(ast_atoms(t, pol))
+        out.extend(ast_atoms(expand_bool(test, defs) if defs else test, pol))
     return out
+
+
+# ---------------------------------------------------------------------------------------------- canonical atoms
+_FLIP = {ast.Lt: ast.Gt, ast.Gt: ast.Lt, ast.LtE: ast.GtE, ast.GtE: ast.LtE}
+
+
+def _is_len(e):
+    return isinstance(e, ast.Call) and isinstance(e.func, ast.Name) and e.func.id == "len" and len(e.args) == 1 and not e.keywords
+
+
+def len_guard(e: ast.expr):
+    """`len(X) > L` in any spelling -> (unparse(X), L expression, shift, polarity) meaning
+    (len(X) > L + shift) == polarity; None for anything else.
+    `len(x) <= L` -> (x, L, 0, False); `L < len(x)` -> (x, L, 0, True); `len(x) >= L` -> (x, L, -1, True)."""
+    if not (isinstance(e, ast.Compare) and len(e.ops) == 1):
+        return None
+    l, r, op = e.left, e.comparators[0], type(e.ops[0])
+    if op not in _FLIP:
+        return None
+    if _is_len(r) and not _is_len(l):
+        l, r, op = r, l, _FLIP[op]
+    if not _is_len(l):
+        return None
+    x = unparse(l.args[0])
+    if op is ast.Gt:
+        return (x, r, 0, True)
+    if op is ast.LtE:
+        return (x, r, 0, False)
+    if op is ast.GtE:
+        return (x, r, -1, True)
+    return (x, r, -1, False)   # len(x) < L  ==  not (len(x) > L - 1)
+
+
+def canon_atom(e: ast.expr) -> Tuple[str, bool]:
+    """(key, polarity) of an atomic test: negative spellings (`is not`, `!=`, `not in`, `<=`, `<`) are folded into
+    the polarity; length comparisons are oriented as `len(x) > L`."""
+    lg = len_guard(e)
+    if lg is not None:
+        x, L, shift, pol = lg
+        return f"len({x}) > {unparse(L)}" + (f" {shift:+d}" if shift else ""), pol
+    if isinstance(e, ast.Compare) and len(e.ops) == 1:
+        op = e.ops[0]
+        neg = {ast.IsNot: ast.Is, ast.NotEq: ast.Eq, ast.NotIn: ast.In}
+        if type(op) in neg:
+            e2 = ast.Compare(left=e.left, ops=[neg[type(op)]()], comparators=e.comparators)
+            return unparse(e2), False
+    return unparse(e), True
+
+
+def canon_atoms(atoms) -> List[Tuple[str, bool]]:
+    """[(expr, pol)] (from ast_atoms / dominating_atoms) -> [(canonical key, polarity)]."""
+    out = []
+    for e, pol in atoms:
+        k, p = canon_atom(e)
+        out.append((k, pol == p))
+    return out
+
+
+def tri(test: ast.expr, facts: Dict[str, bool]) -> Optional[bool]:
+    """three-valued truth of `test` given the truth of canonical atoms."""
+    if isinstance(test, ast.UnaryOp) and isinstance(test.op, ast.Not):
+        v = tri(test.operand, facts)
+        return None if v is None else not v
+    if isinstance(test, ast.BoolOp):
+        vals = [tri(v, facts) for v in test.values]
+        if isinstance(test.op, ast.And):
+            return False if any(v is False for v in vals) else (True if all(v is True for v in vals) else None)
+        return True if any(v is True for v in vals) else (False if all(v is False for v in vals) else None)
+    if isinstance(test, ast.Constant):
+        return bool(test.value)
+    k, p = canon_atom(test)
+    if k in facts:
+        return facts[k] == p
+    return None
+
+
+def edge_ok_under(g, facts: Dict[str, bool], defs: Optional[Dict[str, ast.expr]] = None):
+    """`edge_ok` predicate: non-exceptional edges, minus branch outcomes refuted by `facts`."""
+    memo = {}
+
+    def ok(a, b, lab):
+        if lab == "exc":
+            return False
+        n = g.nodes[a]
+        if n.kind == "test" and lab in ("true", "false") and hasattr(n.stmt, "test"):
+            if a not in memo:
+                t = n.stmt.test
+                memo[a] = tri(expand_bool(t, defs) if defs else t, facts)
+            v = memo[a]
+            if v is not None and v != (lab == "true"):
+                return False
+        return True
+    return ok
+
+
+# ---------------------------------------------------------------------------------------------- normal form of a function
+def _pure(e) -> bool:
+    """attribute chains on names, names, constants and tuples of those: no calls, no subscripts."""
+    if isinstance(e, (ast.Name, ast.Constant)):
+        return True
+    if isinstance(e, ast.Attribute):
+        return _pure(e.value)
+    if isinstance(e, ast.Tuple):
+        return all(_pure(x) for x in e.elts)
+    return False
+
+
+class _SubstLoads(ast.NodeTransformer):
+    def __init__(self, mapping):
+        self.mapping = mapping
+
+    def visit_Name(self, node):
+        if isinstance(node.ctx, ast.Load) and node.id in self.mapping:
+            new = copy.deepcopy(self.mapping[node.id])
+            for x in ast.walk(new):
+                ast.copy_location(x, node)
+            return new
+        return node
+
+
+def norm_fn(ctx, f, pred=_pure):
+    """A copy of FuncInfo `f` in which every read of a single-assignment local whose definition is *pure*
+    (`names = self.truncated_names`, `key = (ident_class, name)`) is replaced by that definition (aliases of aliases
+    resolved).  The defining statements stay.  Fresh AST: use `ctx.cfg(f2.node)` and `parent_map(f2.node)`."""
+    cache = ctx.__dict__.setdefault("_rob_e2_nf", {})
+    k = (id(f.node), id(pred))
+    if k in cache:
+        return cache[k]
+    node = copy.deepcopy(f.node)
+    defs = {n: v for n, v in _fresh_single_bindings(node).items() if pred(v)}
+    # a local rebound inside a nested scope / comprehension is left alone
+    for n in ast.walk(node):
+        if n is not node and isinstance(n, (ast.FunctionDef, ast.AsyncFunctionDef, ast.Lambda)):
+            for x in ast.walk(n):
+                if isinstance(x, ast.Name) and isinstance(x.ctx, ast.Store):
+                    defs.pop(x.id, None)
+    for _ in range(3):
+        defs = {k_: _SubstLoads({a: b for a, b in defs.items() if a != k_}).visit(copy.deepcopy(v)) for k_, v in defs.items()}
+    if defs:
+        node.body = [_SubstLoads(defs).visit(st) for st in node.body]
+        ast.fix_missing_locations(node)
+    f2 = copy.copy(f)
+    f2.node = node
+    cache[k] = f2
+    return f2
+
+
+def _stringish(e) -> bool:
+    return isinstance(e, (ast.Name, ast.JoinedStr)) or (isinstance(e, ast.BinOp) and isinstance(e.op, ast.Add)) \
+        or (isinstance(e, ast.Subscript) and isinstance(e.slice, ast.Slice))
+
+
+def expand_strings(fnode, expr: ast.AST, keep=(), depth: int = 4) -> ast.AST:
+    """`expr` with single-assignment locals that stand for string-building expressions (concatenation, slice,
+    f-string, plain alias) replaced by those; locals bound to calls / attributes stay symbolic."""
+    defs = {n: v for n, v in _fresh_single_bindings(fnode).items() if _stringish(v) and n not in set(keep)}
+    return expand_expr(expr, defs, depth=depth)
+
+
+def value_arms(value: ast.expr, atoms=()):
+    """[(expression, extra atoms)]: a conditional expression is split into its arms."""
+    if isinstance(value, ast.IfExp):
+        return value_arms(value.body, list(atoms) + ast_atoms(value.test, True)) + \
+            value_arms(value.orelse, list(atoms) + ast_atoms(value.test, False))
+    return [(value, list(atoms))]
+
+
+# ---------------------------------------------------------------------------------------------- extract-method inverse
+# rob-G1's normal_form() with one correction: in `target = helper(..)` mode the helper's locals are renamed BEFORE the
+# final `target = <returned value>` is appended, so a helper local that happens to have the caller's target name
+# (`truncname = self._numbered(..)` where the helper also calls its result `truncname`) does not capture the target.
+def _inline_call_fixed(ctx, f, call, mode, used, skip, counter, targets=None):
+    from . import _helpers_rob_g1 as G
+    r = G._inlinable(ctx, f, call, skip, None)
+    if r is None:
+        return None
+    callee, m = r
+    hn = callee.node
+    body = copy.deepcopy(G._body_wo_doc(hn))
+    if not body:
+        return None
+    all_rets = [n for n in walk_local(ast.Module(body=body, type_ignores=[])) if isinstance(n, ast.Return)]
+    last = body[-1]
+    tail = None
+    if mode == "expr":
+        if any(r_ is not last for r_ in all_rets):
+            return None
+        if isinstance(last, ast.Return):
+            body = body[:-1] + ([ast.copy_location(ast.Expr(value=last.value), last)] if last.value is not None else [])
+    elif mode == "assign":
+        if not (isinstance(last, ast.Return) and last.value is not None) or any(r_ is not last for r_ in all_rets):
+            return None
+        tail = ast.copy_location(ast.Assign(targets=[], value=last.value), last)
+        body = body[:-1] + [tail]
+    else:
+        if not isinstance(last, (ast.Return, ast.Raise)):
+            body.append(ast.copy_location(ast.Return(value=ast.Constant(value=None)), last))
+    stored = {n for n, v, st in name_stores(hn)}
+    prologue, subst, rename = [], {}, {}
+    own = {x.arg for x in hn.args.posonlyargs + hn.args.args + hn.args.kwonlyargs}
+    for p, arg in m.items():
+        if p not in stored and (G._simple_arg(arg) or sum(1 for n in walk_local(hn) if isinstance(n, ast.Name) and n.id == p) <= 1):
+            subst[p] = arg
+        else:
+            new = p if p not in used else p + "__inl"
+            if new != p:
+                rename[p] = new
+            prologue.append(ast.copy_location(ast.Assign(targets=[ast.Name(id=new, ctx=ast.Store())], value=copy.deepcopy(arg)), call))
+    for loc_name in stored - set(m) - own:
+        if loc_name in used:
+            rename[loc_name] = loc_name + "__inl"
+    mod = ast.Module(body=body, type_ignores=[])
+    if rename:
+        mod = G._Rename(rename).visit(mod)
+    if subst:
+        mod = G._Subst(subst).visit(mod)
+    if tail is not None:
+        tail.targets = copy.deepcopy(targets)
+    used.update(rename.values())
+    used.update(stored)
+    ctx.functions_analysed.add(callee.key)
+    out = prologue + list(mod.body)
+    G._relocate(out, call, counter)
+    return out
+
+
+def _inline_block_fixed(ctx, f, body, used, skip, depth, counter):
+    from . import _helpers_rob_g1 as G
+    out = []
+    for st in body:
+        repl = None
+        if depth > 0:
+            if isinstance(st, ast.Expr) and isinstance(st.value, ast.Call):
+                repl = _inline_call_fixed(ctx, f, st.value, "expr", used, skip, counter)
+            elif isinstance(st, ast.Assign) and isinstance(st.value, ast.Call):
+                repl = _inline_call_fixed(ctx, f, st.value, "assign", used, skip, counter, st.targets)
+            elif isinstance(st, ast.Return) and isinstance(st.value, ast.Call):
+                repl = _inline_call_fixed(ctx, f, st.value, "return", used, skip, counter)
+        if repl is not None:
+            out.extend(_inline_block_fixed(ctx, f, repl, used, skip, depth - 1, counter))
+            continue
+        tr = G._InlinePredicates(ctx, f, skip, counter, depth)
+        for fld, val in list(ast.iter_fields(st)):
+            if isinstance(val, ast.expr):
+                setattr(st, fld, tr.visit(val))
+            elif isinstance(val, list) and val and all(isinstance(x, ast.expr) for x in val):
+                setattr(st, fld, [tr.visit(x) for x in val])
+        for fld in ("body", "orelse", "finalbody"):
+            sub_ = getattr(st, fld, None)
+            if isinstance(sub_, list) and sub_ and isinstance(sub_[0], ast.stmt) and not isinstance(st, (ast.FunctionDef, ast.AsyncFunctionDef, ast.ClassDef)):
+                setattr(st, fld, _inline_block_fixed(ctx, f, sub_, used, skip, depth, counter))
+        for h in getattr(st, "handlers", []) or []:
+            h.body = _inline_block_fixed(ctx, f, h.body, used, skip, depth, counter)
+        out.append(st)
+    return out
+
+
+def inline_helpers(ctx, f, skip=(), depth: int = 2):
+    """A copy of FuncInfo `f` with statement-level calls of same-module helpers / methods of its own class replaced by
+    the helper's body (arguments substituted), and single-`return` predicate helpers expanded inside expressions."""
+    from . import _helpers_rob_g1 as G
+    cache = ctx.__dict__.setdefault("_rob_e2_inl", {})
+    k = (id(f.node), tuple(sorted(skip)), depth)
+    if k in cache:
+        return cache[k]
+    node = copy.deepcopy(f.node)
+    try:
+        del node._rob_single_bindings
+    except AttributeError:
+        pass
+    used = {n.id for n in ast.walk(node) if isinstance(n, ast.Name)} | set(G.params_of(node))
+    node.body = _inline_block_fixed(ctx, f, node.body, used, set(skip), depth, [0])
+    ast.fix_missing_locations(node)
+    f2 = copy.copy(f)
+    f2.node = node
+    cache[k] = f2
+    return f2
